@@ -88,3 +88,13 @@ func VariableInfo(name string) (known bool, canonical string, selectable bool) {
 	}
 	return true, v.Name(), v.CanBeSelected()
 }
+
+// RxParts exposes what an @rx operator built for its fast paths (see operators.VerifRxParts).
+func RxParts(op plugintypes.Operator) (minLen int, prefilter func(string) bool, exact string, exactCI bool, ok bool) {
+	return operators.VerifRxParts(op)
+}
+
+// RxAST renders the simplified regexp/syntax tree of a pattern.
+func RxAST(pattern string) (string, error) {
+	return operators.VerifRxAST(pattern)
+}
